@@ -24,6 +24,7 @@ Environment overrides (experiments only): NAIJA_BIN (debug binary), NAIJA_BIN_RE
 """
 import concurrent.futures
 import hashlib
+import json
 import os
 import random
 import re
@@ -922,6 +923,41 @@ def run(tier, seed):
         for row in table:
             print(row)
     return common.finish(PROP, tier, seed, "exploration", res, RULE, ASSUMPTIONS, min_nontrivial=10)
+
+
+def _shape_by_id(sid):
+    if sid.startswith("mix-rec-in-"):
+        wid, k = sid[len("mix-rec-in-"):].rsplit("-", 1)
+        return compose("expr" if wid in WRAP_EXPR else "stmt", wid, int(k))
+    return SHAPES[sid]
+
+
+def replay(path):
+    """Re-runs one recorded case (shape, depth, profile) and reports how it ends now."""
+    with open(path) as f:
+        rec = json.load(f)
+    rp = rec.get("replay", {})
+    sid, d, profile = rp["shape"], int(rp["depth"]), rp.get("profile", "dbg")
+    sh = _shape_by_id(sid)
+    ok_limit, note = set_stack_limit()
+    detect_no_aslr()
+    binary = common.build("cli-dbg" if profile == "dbg" else "cli-rel")
+    os.makedirs(os.path.join(common.VERIF, "run"), exist_ok=True)
+    workdir = tempfile.mkdtemp(prefix="c08-replay-", dir=os.path.join(common.VERIF, "run"))
+    try:
+        r = run_source(binary, sh["gen"](d), workdir, delivery=sh.get("delivery", "file"))
+    finally:
+        try:
+            os.rmdir(workdir)
+        except OSError:
+            pass
+    print(f"shape={sid} depth={d} profile={profile} stack: {note}; ending now: {r['ending']} {r['note']}")
+    lost = rec.get("signature", "").startswith("guard-error-lost") and r["ending"] == "ok"
+    if r["ending"] == "crash" or lost:
+        print(f"VIOLATION property={PROP} replay={path}")
+        return 1
+    print("the recorded case no longer fails" if r["ending"] in ("ok", "guard", "diag") else f"inconclusive: {r['ending']}")
+    return 0
 
 
 if __name__ == "__main__":
